@@ -826,6 +826,71 @@ func c11NodeWalletIssuer(w *core.WorkerCtx, rng *rand.Rand) {
 	}
 }
 
+// c11MergeVertex: two nodes seal a vertex on the same tip at the same moment; once both vertices are everywhere the
+// ledger has two tips, and the next vertex sealed anywhere names two different parents. That vertex travels like any
+// other: to every node, exactly once.
+func c11MergeVertex(w *core.WorkerCtx, rng *rand.Rand) {
+	r := w.R
+	for ti, t := range []topo{smallTopos[1], smallTopos[2], smallTopos[3]} {
+		net, err := vnet.Build(t.k, t.adj, -1)
+		if err != nil {
+			r.Inconc("cannot build network: " + err.Error())
+			return
+		}
+		for round := 0; round < w.Pick(2, 8); round++ {
+			net.ResetExecution()
+			a, b := round%t.k, (round+1+ti)%t.k
+			if a == b {
+				b = (b + 1) % t.k
+			}
+			i1, e1 := c11Originate(net, a, "vrx", 7000+10*round)
+			i2, e2 := c11Originate(net, b, "vrx", 7001+10*round)
+			if e1 != nil || e2 != nil {
+				continue
+			}
+			x := &c11Exec{w: w, net: net, t: t, rng: rng, policy: "fifo"}
+			if !x.drive() {
+				r.Inconc("fork execution did not reach quiescence")
+				break
+			}
+			c11Retries(net, -1)
+			net.Settle()
+			// the merge: sealed where both tips are known
+			origin := (round + 2) % t.k
+			s, err := ledger.TakeSnap(net.Nodes[origin].Book)
+			if err != nil || len(s.Leaves) < 2 {
+				r.Count("c11_merge_rounds_without_a_fork", 1)
+				c11Heal(net, -1)
+				continue
+			}
+			net.ResetExecution()
+			m, err := c11Originate(net, origin, "vrx", 7002+10*round)
+			if err != nil {
+				continue
+			}
+			twoParents := m.vrx != nil && m.vrx.LeftParentHash != m.vrx.RightParentHash
+			desc := fmt.Sprintf("topology %s: nodes %d and %d sealed %s and %s on one tip; node %d then sealed a vertex on both (two different parents: %v)", t.name, a, b, ledger.Hex(i1.hash), ledger.Hex(i2.hash), origin, twoParents)
+			w.Mark("%s", desc)
+			x = &c11Exec{w: w, net: net, t: t, rng: rng, policy: []string{"fifo", "random"}[round%2]}
+			if !x.drive() {
+				r.Inconc("execution did not reach quiescence: " + desc)
+				break
+			}
+			c11Retries(net, -1)
+			net.Settle()
+			c11Judge(w, net, t, []c11Item{m}, desc, -1, nil)
+			r.Eval(1)
+			r.Count("c11_executions", 1)
+			if twoParents {
+				r.Count("c11_merge_vertex_executions", 1)
+			}
+			r.Nontriv(fmt.Sprintf("merge-vertex/%s/two-parents=%v/%s", t.name, twoParents, net.OrderString()))
+			c11Heal(net, -1)
+		}
+		net.Close()
+	}
+}
+
 // c11Witness is the fixed schedule of the known finding: line A-C-D, parent and child created back to back at A,
 // the child reaches relay C first.
 func c11Witness(w *core.WorkerCtx) {
@@ -888,6 +953,9 @@ func c11Worker(w *core.WorkerCtx) {
 	}
 	if w.Batch == 4 {
 		c11NodeWalletIssuer(w, core.Rand(w.Seed, "C11nodewallet", w.Batch))
+	}
+	if w.Batch == 5 {
+		c11MergeVertex(w, core.Rand(w.Seed, "C11merge", w.Batch))
 	}
 	// the 9 small graphs are spread over the batches; larger graphs are sampled
 	for ti, t := range smallTopos {
